@@ -184,3 +184,47 @@ def r_to_rfi(tmp, inp):
             if k != 'range' and repr(mo[k]) != repr(md[k]):
                 return True, 'metadata %s changed' % k
     return False, 'agrees'
+
+
+@replayer('C07.commute')
+def r_c07(tmp, inp):
+    """ranges follow the data: limits are exactly the transformed saturated events; default high/low gating commutes"""
+    import FlowCal
+    R = int(inp['resolution'])
+    D = 3
+    names = ['FSC-H', 'FL1-H', 'FL2-H']
+    lo, hi = 0, R - 1
+    base = [lo, hi, lo + 1, hi - 1, lo, hi, R // 2, R // 3, hi, 7 % R]
+    rows = [[base[(i + j * 3) % len(base)] for j in range(D)] for i in range(len(base))]
+    rows += [[lo + 2, hi - 2, R // 2]] * 2
+    at = [[fnum(inp['a0']), fnum(inp['a1'])]] * D if inp['kind'] == 'rfi' else [[0.0, 0.0]] * D
+    meta = {'channels': names, 'range': [[float(lo), float(hi)]] * D, 'amplification_type': at,
+            'amplifier_gain': [inp.get('gain')] * D, 'resolution': [R] * D}
+    d = make_fcs(tmp, rows, meta)
+    d = d.astype(int) if inp.get('int_data', True) else d
+    d._range = [[float(lo), float(hi)] for _ in range(D)]
+    sel = inp['channels']
+    if inp['kind'] == 'rfi':
+        conv = lambda x: FlowCal.transform.to_rfi(x, sel)
+    else:
+        m_, b_ = fnum(inp['m']), fnum(inp['b'])
+        sc = lambda x: np.sign(x) * np.exp(b_) * (np.abs(x) ** m_)
+        conv = lambda x: FlowCal.transform.to_mef(x, sel, [sc] * len(sel), sel)
+    t = conv(d)
+    X = np.asarray(d)
+    T = np.asarray(t)
+    for c in range(D):
+        nm = names[c]
+        if nm in sel:
+            for lim, orig in ((0, lo), (1, hi)):
+                ev = T[X[:, c] == orig, c]
+                if len(ev) and not np.all(ev == t.range(nm)[lim]):
+                    return True, 'channel %s: new %s limit %r differs from the converted saturated events %r' % (
+                        nm, 'upper' if lim else 'lower', t.range(nm)[lim], float(ev[0]))
+        elif list(t.range(nm)) != [float(lo), float(hi)]:
+            return True, 'unconverted channel %s changed its limits: %r' % (nm, t.range(nm))
+    before = conv(FlowCal.gate.high_low(d, names))
+    after = FlowCal.gate.high_low(t, names)
+    if np.asarray(before).shape != np.asarray(after).shape or not np.array_equal(np.asarray(before), np.asarray(after)):
+        return True, 'gating before the conversion keeps %d events, after it %d' % (len(before), len(after))
+    return False, 'commutes'
